@@ -72,7 +72,8 @@ class BinarySearchTreeAdapted1D(Sampling):
         axis = self.axis
         left, right = self._coordinates_left_axis
         current_p = u
-        if u > self._proba_left_axis:
+        # the states are given the half-open intervals [a, b) of [0, 1): a state of probability zero gets the empty set
+        if u >= self._proba_left_axis:
             left, right = self._coordinates_right_axis
             current_p -= self._proba_left_axis
 
@@ -82,7 +83,7 @@ class BinarySearchTreeAdapted1D(Sampling):
             a, b = self._cell_bounds[l], self._cell_bounds[r + 1]
             p = self._compute_probability(a, b)
 
-            if current_p > p:
+            if current_p >= p:
                 left = min(right, middle + 1)
                 current_p -= p
             else:
@@ -206,7 +207,13 @@ class BinarySearchTreeAdapted(Sampling):
 
     def sample_with_us(self, us: np.array):
         # find the bucket where to sample the state
-        bucket_positions = np.searchsorted(self._cum_ps, us)
+        # buckets and states are given the half-open intervals [a, b) of their cumulative sums, so that a bucket / state
+        # of probability zero is never selected; the residual probabilities that rounding leaves above the last
+        # cumulative sum go to the last bucket / state of positive probability (the first index reaching the total)
+        bucket_positions = np.minimum(
+            np.searchsorted(self._cum_ps, us, side="right"),
+            np.searchsorted(self._cum_ps, self._cum_ps[-1], side="left"),
+        )
         bucket_coordinates = [
             self._buckets_coordinates[bucket_position]
             for bucket_position in bucket_positions
@@ -222,8 +229,10 @@ class BinarySearchTreeAdapted(Sampling):
         ):
             if self._is_axis[bucket_position]:
                 # find the position of the state
-                state_ith_pos = np.searchsorted(
-                    self._precomputed_cum_p_for_axes[bucket_position], prob
+                cum_p = self._precomputed_cum_p_for_axes[bucket_position]
+                state_ith_pos = min(
+                    np.searchsorted(cum_p, prob, side="right"),
+                    np.searchsorted(cum_p, cum_p[-1], side="left"),
                 )
                 a_c, b_c = list(zip(*these_bucket_coordinates))
                 state = tuple(
@@ -258,7 +267,7 @@ class BinarySearchTreeAdapted(Sampling):
                     a = grid.middle(grid.left_point(a_cc), grid[a_cc])
                     b = grid.middle(grid[b_cc], grid.right_point(b_cc))
                     p = self._compute_probability(a, b)
-                    if current_probability > p:
+                    if current_probability >= p:
                         result[k] = min(right, middle + 1), right
                         current_probability -= p
 
